@@ -503,3 +503,211 @@ func removedNameIsLocal(p *Prog, f, root *Fn, info *types.Info, c *ast.CallExpr)
 	}
 	return true, "file of " + src.Name() + ", created in this function"
 }
+
+// C12-e/f: what is acknowledged is persisted, and what is persisted is restored.
+func init() {
+	register("C12",
+		"C12-e (state fields round-trip, sibling agreement): every field of the persisted stateFile record — including the per-tag record — is written by saveState and read back by New. C12-f (acknowledge after save): in every closure that an exported API function posts on the service goroutine, a change of persisted state (Manager.tags and the persisted fields of a tag, config, webhook list, endpoint list) is followed on every path to the end of the closure by a call of saveState (or by a failing return that C11-a shows to be free of mutations).",
+		ruleC12Persist)
+}
+
+func ruleC12Persist(p *Prog, r *Res) {
+	const ruleE = "C12-e state-fields-round-trip"
+	r.Rule(ruleE + ": every stateFile field is saved and restored")
+	sf := p.Named("manager", "stateFile")
+	save := p.Fn("manager.Manager.saveState")
+	nw := p.Fn("manager.New")
+	if sf == nil || save == nil || nw == nil {
+		return
+	}
+	type fld struct {
+		name string
+		v    *types.Var
+	}
+	var fields []fld
+	st := sf.Underlying().(*types.Struct)
+	for i := 0; i < st.NumFields(); i++ {
+		f := st.Field(i)
+		fields = append(fields, fld{"stateFile." + f.Name(), f})
+		// element struct of Tags
+		if sl, ok := f.Type().Underlying().(*types.Slice); ok {
+			if es, ok := sl.Elem().Underlying().(*types.Struct); ok {
+				for j := 0; j < es.NumFields(); j++ {
+					fields = append(fields, fld{"stateFile." + f.Name() + "[]." + es.Field(j).Name(), es.Field(j)})
+				}
+			}
+		}
+	}
+	usedIn := func(f *Fn, v *types.Var, asKey bool) bool {
+		hit := false
+		info := f.Pkg.TypesInfo
+		ast.Inspect(f.Body(), func(x ast.Node) bool {
+			switch s := x.(type) {
+			case *ast.KeyValueExpr:
+				if id, ok := s.Key.(*ast.Ident); ok && asKey && info.Uses[id] == types.Object(v) {
+					hit = true
+				}
+			case *ast.SelectorExpr:
+				if info.Uses[s.Sel] == types.Object(v) {
+					hit = true
+				}
+			}
+			return true
+		})
+		return hit
+	}
+	for _, f := range fields {
+		// anonymous struct fields in saveState's literal are distinct objects from the named type's: match by name for the element struct
+		saved := usedIn(save, f.v, true)
+		if !saved {
+			// by name inside composite literals of saveState
+			ast.Inspect(save.Body(), func(x ast.Node) bool {
+				if kv, ok := x.(*ast.KeyValueExpr); ok {
+					if id, ok := kv.Key.(*ast.Ident); ok && id.Name == f.v.Name() {
+						saved = true
+					}
+				}
+				return true
+			})
+		}
+		restored := usedIn(nw, f.v, false)
+		if !restored {
+			ast.Inspect(nw.Body(), func(x ast.Node) bool {
+				if se, ok := x.(*ast.SelectorExpr); ok && se.Sel.Name == f.v.Name() {
+					if v, ok := nw.Pkg.TypesInfo.Uses[se.Sel].(*types.Var); ok && v.IsField() && v.Name() == f.v.Name() {
+						t := nw.Pkg.TypesInfo.TypeOf(se.X)
+						if t != nil && (strings.Contains(t.String(), "stateFile") || strings.Contains(t.String(), "struct{Name string")) {
+							restored = true
+						}
+					}
+				}
+				return true
+			})
+		}
+		r.Check(saved && restored, ruleE, f.name, p.PosOf(f.v.Pos()), "written by saveState and read by New", fmt.Sprintf("saved=%v restored=%v: an acknowledged change of this part of the state does not survive a restart", saved, restored))
+	}
+	r.Floor(ruleE, 10, len(fields))
+
+	const ruleF = "C12-f acknowledge-after-save"
+	r.Rule(ruleF + ": API closures persist what they change before they complete successfully")
+	ctx := p.Contexts()
+	saveObj := p.Method("manager", "Manager", "saveState")
+	persisted := map[*types.Var]string{}
+	for _, n := range []string{"tags", "config", "pcapProcessorWebhookUrls", "pcapOverIPEndpoints"} {
+		if v := p.Field("manager", "Manager", n); v != nil {
+			persisted[v] = "Manager." + n
+		}
+	}
+	for _, n := range []string{"definition", "color", "converters"} {
+		if v := p.Field("manager", "tag", n); v != nil {
+			persisted[v] = "tag." + n
+		}
+	}
+	nf := 0
+	for _, api := range p.FnList {
+		if api.Short != "manager" || api.Lit != nil || !api.Decl.Name.IsExported() || api.Key() == "manager.New" {
+			continue
+		}
+		for _, posted := range ctx.postedIn(api) {
+			// the functions that run as part of this closure: the closure, its inline literals, and declared delegates
+			var fns []*Fn
+			seen := map[*Fn]bool{}
+			var visit func(g *Fn, d int)
+			visit = func(g *Fn, d int) {
+				if g == nil || seen[g] || d > 2 {
+					return
+				}
+				seen[g] = true
+				fns = append(fns, g)
+				for _, l := range g.Lits {
+					visit(l, d)
+				}
+			}
+			eff, _ := ctx.effective(posted)
+			visit(posted, 0)
+			visit(eff, 0)
+			for _, g := range fns {
+				info := g.Pkg.TypesInfo
+				fl := p.Flow(g)
+				isSave := func(n ast.Node) bool {
+					return fl.hasCall(n, func(c *ast.CallExpr) bool {
+						if p.Callee(g.Pkg, c) == saveObj {
+							return true
+						}
+						// an inline worker literal that itself always saves (err := func() error {…}())
+						if lit, ok := ast.Unparen(c.Fun).(*ast.FuncLit); ok {
+							lf := p.FnOfLit(lit)
+							lfl := p.Flow(lf)
+							res := lfl.search([]Pt{lfl.Entry()}, func(m ast.Node) bool {
+								return isReturn(m) && !isFailingReturn(info, m) && !lfl.hasCall(m, func(cc *ast.CallExpr) bool { return p.Callee(lf.Pkg, cc) == saveObj })
+							}, func(m ast.Node) bool {
+								return lfl.hasCall(m, func(cc *ast.CallExpr) bool { return p.Callee(lf.Pkg, cc) == saveObj })
+							})
+							return !res.Found
+						}
+						// removeConverter / restartConverterProcess style helpers that end in saveState
+						if fn := p.Callee(g.Pkg, c); fn != nil {
+							if tf := p.FnOfObj(fn); tf != nil && tf.Short == "manager" {
+								for _, cc := range callsIn(tf.Body()) {
+									if p.Callee(tf.Pkg, cc) == saveObj {
+										return true
+									}
+								}
+							}
+						}
+						return false
+					})
+				}
+				for _, b := range fl.G.Blocks {
+					if !b.Live {
+						continue
+					}
+					for i, n := range b.Nodes {
+						what := ""
+						inspectShallow(n, func(x ast.Node) bool {
+							var lhss []ast.Expr
+							switch s := x.(type) {
+							case *ast.AssignStmt:
+								lhss = s.Lhs
+							case *ast.CallExpr:
+								if isBuiltin(info, s, "delete") && len(s.Args) == 2 {
+									lhss = []ast.Expr{s.Args[0]}
+								}
+							}
+							for _, l := range lhss {
+								ast.Inspect(l, func(y ast.Node) bool {
+									if se, ok := y.(*ast.SelectorExpr); ok {
+										if v, ok := info.Uses[se.Sel].(*types.Var); ok && persisted[v] != "" {
+											// stores through a fresh, not yet installed tag (newTag.color = …) do not change persisted state
+											if obj := identObj(info, se.X); obj != nil && strings.HasPrefix(persisted[v], "tag.") {
+												if _, isPtr := obj.Type().Underlying().(*types.Pointer); !isPtr {
+													return true
+												}
+												if obj.Name() == "newTag" || obj.Name() == "nt" {
+													return true
+												}
+											}
+											what = persisted[v]
+										}
+									}
+									return true
+								})
+							}
+							return true
+						})
+						if what == "" {
+							continue
+						}
+						nf++
+						key := fmt.Sprintf("%s change of %s@%s", g.Key(), what, relLine(p, g, n))
+						res := fl.search([]Pt{{b, i + 1}}, func(m ast.Node) bool {
+							return isReturn(m) && !isFailingReturn(info, m) && !isSave(m)
+						}, isSave)
+						r.Check(!res.Found, ruleF, key, p.Pos(n), "saveState lies on every successful path after the change", "persisted state is changed and the closure can complete successfully without saving it: the change is acknowledged to the caller but lost at the next restart ("+fl.traceString(res)+")")
+					}
+				}
+			}
+		}
+	}
+	r.Floor(ruleF, 10, nf)
+}
